@@ -31,6 +31,8 @@ Require Import V.Proofs.ExclEv.
 Require Import V.Proofs.ExclRace.
 Require Import V.Proofs.ExclThm.
 Require Import V.Proofs.ExclRun.
+Require Import V.Proofs.ShCoupl.
+Require Import V.Proofs.ShRace.
 Open Scope Z_scope.
 
 (* ---- the prefix part: every interleaving of a polling subscriber with ANY number of publishers, ANY of which may be
@@ -165,6 +167,24 @@ Theorem C03_detector_sound : forall cls watch g tr, disc cls watch g tr -> race_
 Proof. exact disc_race_free. Qed.
 Print Assumptions C03_detector_sound.
 
+(* ---- the detector on the model of the shared publishers: on the trace of EVERY run of the C03 system (any number of shared
+   publishers, any of them stopped for ever at any access, the Image::poll subscriber, limit updates; reach3t = reach3 + the trace,
+   without driver-side zeroing and within the generations n0 .. n0+2, i.e. no partition is used twice: ShCoupl.gens_ok) the
+   executable vector-clock race detector reports no race on the bytes of the term partitions.  The proof shows that every trace
+   follows the frame discipline (ShRace.reach3t_disc: from Inv3 - claims of a generation are pairwise disjoint frames, the committed
+   prefix the subscriber has walked never ends inside a frame, a publisher only writes the frame it is inside, uncommitted), with
+   the classes of the accessors taken from the regenerated K1 table (put_ordered release, get_volatile acquire, the rest plain) ---- *)
+Theorem C03_race_free : forall c, wf_cfg c -> forall s th gh tr,
+  reach3t c s th gh tr -> race_free cls term_region (map narrow tr) = true.
+Proof. exact race_free_model. Qed.
+Print Assumptions C03_race_free.
+
+Theorem C03_run_race_free : forall c, wf_cfg c -> forall stop sched r gh,
+  rs3t_ok c r gh -> adm_sched3t c stop sched r gh ->
+  let '(s, th, g, tr) := run_sched (rtstep c) stop sched r in race_free cls term_region (map narrow (rev tr)) = true.
+Proof. exact run_sched_race_free3. Qed.
+Print Assumptions C03_run_race_free.
+
 (* ---- the exclusive publisher and BufferClaim (Model/ExclThreads.v: ExclusivePublication::offer_opt / try_claim over
    ExclusiveTermAppender, the claimant's payload write, set_flags / set_header_type / set_reserved_value, commit, abort) against
    a subscriber polling with poll / bounded_poll / controlled_poll / bounded_controlled_poll (Model/PollThreads.v; the handler
@@ -280,4 +300,19 @@ Proof. intros c th.
     - intros t t' l l' H1 H2. destruct t as [|[|t]]; destruct t' as [|[|t']]; try reflexivity; try discriminate;
         unfold th, xthreads_of in *; cbn [nth] in *; try (destruct t; discriminate); try (destruct t'; discriminate). }
   pose proof (reachxt_step c 0%nat _ th _ [] 1%nat _ _ _ R0 ltac:(cbn; intros _; vm_compute; discriminate) eq_refl) as R1.
+  eexists. eexists. eexists. eexists. split; [exact R1 | reflexivity]. Qed.
+
+Example C03_example_reach_trace :
+  let c := mkCfg 5 10 64 11 22 0 960 in
+  let th := rthreads_of [rpub 3 [payload 1 40]; reader 3 10] in
+  exists s th' gh tr, reach3t c s th' gh tr /\ length tr = 1%nat.
+Proof. intros c th.
+  assert (R0 : reach3t c (init_shared c 4096) th ghost0 []).
+  { apply reach3t_init.
+    - intros t. destruct t as [|t]; [exists [payload 1 40], 3%nat; reflexivity|].
+      destruct t as [|t]; [exists 3%nat, 10; reflexivity|]. unfold th, rthreads_of. cbn [nth]. destruct t; exact I.
+    - intros t t' l l' H1 H2. destruct t as [|[|t]]; destruct t' as [|[|t']]; try reflexivity; try discriminate;
+        unfold th, rthreads_of in *; cbn [nth] in *; try (destruct t; discriminate); try (destruct t'; discriminate). }
+  assert (G0 : gens_ok c (init_shared c 4096)) by (intros p Hp; assert (p = 0 \/ p = 1 \/ p = 2) as [-> | [-> | ->]] by lia; vm_compute; discriminate).
+  pose proof (reach3t_step c _ th ghost0 [] 1%nat _ _ _ R0 I I G0 eq_refl) as R1.
   eexists. eexists. eexists. eexists. split; [exact R1 | reflexivity]. Qed.
